@@ -394,6 +394,25 @@ fn main() {
     let _arena = Arena::<Rootable![Traced<'_>]>::new(|mc| Traced { p: Gc::new(mc, 4) });
 }
 ''')
+P("C12", "require_static_field_with_bound_override_holds_gc_ref", "E0277|E0599|E0310|~not general enough|" + LIFETIME, "a derived root with a type-level bound override parks a &'gc T in a require_static field (the derive must demand FieldType: 'static whatever the bound setting)", '''
+#[derive(Collect)]
+#[collect(no_drop, bound = "")]
+struct Parked<'gc> {
+    #[cfg(bad)]
+    #[collect(require_static)]
+    slot: Cell<Option<&'gc i32>>,
+    #[cfg(not(bad))]
+    #[collect(require_static)]
+    slot: Cell<Option<&'static i32>>,
+    p: Gc<'gc, i32>,
+}
+fn main() {
+    let mut arena = Arena::<Rootable![Parked<'_>]>::new(|mc| Parked { slot: Cell::new(None), p: Gc::new(mc, 1) });
+    #[cfg(bad)]
+    arena.mutate(|_mc, r| r.slot.set(Some(r.p.as_ref())));
+    arena.finish_cycle();
+}
+''')
 P("C12", "foreign_lifetime_root", "E0277|E0599|E0521|" + LIFETIME, "a root type mentioning a non-'static foreign lifetime is collected", '''
 fn f<'x>(v: &'x i32) {
     #[cfg(bad)]
